@@ -77,11 +77,15 @@ class TreeDriver:
         self.universe = universe
         self.serial = 50
         self.last_sig = {'kind': 'none', 'path': (), 'cls': '-'}
+        self.made = {}          # (path, class) -> instance: the application exports the same instance again
 
     def apply(self, name, args):
         del self.conn.sent[:]
         if name == 'Export':
-            self.h.exportObject(CLS[args[1]](pstr(args[0])))
+            key = (args[0], args[1])
+            if key not in self.made:
+                self.made[key] = CLS[args[1]](pstr(args[0]))
+            self.h.exportObject(self.made[key])
         else:
             self.h.unexportObject(pstr(args[0]))
         sigs = [m for m in self.conn.sent]
